@@ -314,7 +314,8 @@ def snap(ctx: Ctx) -> None:
     fn = mod.fn("inspect_frame")
     ctx.R.saw(mod, "inspect_frame")
     g = ctx.cfg(fn)
-    loops = [s for s in fn.body if isinstance(s, ast.For) and norm(s.iter).startswith("range(")]
+    loops = [s for s in fn.body if isinstance(s, ast.For) and norm(s.iter).startswith("range(")
+             and any(isinstance(x, ast.Try) for x in s.body) and any(isinstance(x, ast.Assign) and norm(x.value) == "frame.f_lasti" for x in s.body)]
     if len(loops) != 1:
         raise AnalysisError("SNAP: retry loop vanished")
     loop = loops[0]
@@ -373,6 +374,11 @@ def snap(ctx: Ctx) -> None:
         rn = g.node_of(_stmt(mod, r))
         okh = all(g.all_paths_pass(g.node_of(_stmt(mod, h)), {rn.idx}, rechecks) for h in header_reads if _stmt(mod, h) is not _stmt(mod, r))
         oki = g.all_paths_pass(rn, {rn.idx}, rechecks)
+        # ... and the re-check is the last thing before the read: from the head of the slot loop (the point reached after the
+        # previous iteration's append, a call and hence a possible thread switch) no path reaches the read without one
+        slot_loops = [a for a in mod.ancestors(_stmt(mod, r)) if isinstance(a, ast.For) and a is not loop]
+        if slot_loops:
+            oki = oki and g.all_paths_pass(g.node_of(slot_loops[0]), {rn.idx}, rechecks)
         oka = g.all_paths_pass(rn, {accept.idx}, rechecks)
         if okh and oki and oka:
             ctx.R.ok("SNAP-3", f"slot read `{norm(r)}`", "re-validated after the header reads, before each iteration's read, and before the snapshot is accepted")
@@ -521,6 +527,27 @@ def snap(ctx: Ctx) -> None:
         ctx.R.ok("SNAP-6", "details.stack is reset at the start of each attempt's slot loop")
     else:
         ctx.R.fail("SNAP-6", mod, tr, "details.stack must be reset inside each attempt before slots are appended: otherwise a retried attempt appends to the slots of the failed one", construct="details.stack = [] per attempt")
+    # SNAP-8 after the snapshot is accepted the position is not read again: the handler-chain walk must start from the
+    # validated token, otherwise stack and blocks describe two different instruction positions
+    after_loop = fn.body[fn.body.index(loop) + 1:]
+    rereads = [x for st_ in after_loop for x in ast.walk(st_) if isinstance(x, ast.Attribute) and x.attr == "f_lasti" and isinstance(x.ctx, ast.Load)]
+    if rereads:
+        ctx.R.fail("SNAP-8", mod, rereads[0], "frame.f_lasti is read again after the snapshot was accepted: the active-block computation then uses a position that was never validated against the value stack "
+                   "(a frame running on another thread may have moved on: blocks of one position are paired with the stack of another)", construct=f"f_lasti re-read after acceptance: {norm(_stmt(mod, rereads[0]))[:80]}")
+    else:
+        acc = [st_ for st_ in after if isinstance(st_, ast.Assign) and norm(st_.value) == tok]
+        if acc:
+            ctx.R.ok("SNAP-8", f"the block computation starts from the validated token ({norm(acc[0])}); f_lasti is not read again")
+        else:
+            ctx.R.undecided("SNAP-8", "cannot see the accepted position being handed to the block computation")
+    # JOIN-2 the handler-chain walk ends only by its own conditions; a bounded walk must not end silently
+    walks = [l_ for st_ in after_loop for l_ in ast.walk(st_) if isinstance(l_, (ast.While, ast.For)) and any(isinstance(c_, ast.Call) and "FinallyBlock" in norm(c_.func) for c_ in ast.walk(l_))]
+    for l_ in walks:
+        if isinstance(l_, ast.For) and not (l_.orelse and isinstance(l_.orelse[-1], ast.Raise)):
+            ctx.R.fail("JOIN-2", mod, l_, f"the handler-chain walk is bounded by `{norm(l_.iter)}` and ends silently when the bound is reached: each with/try costs two table hops (handler and its cleanup handler), "
+                       "so deeply nested frames lose their outermost managers without any warning", construct=f"bounded handler walk {norm(l_.iter)}")
+        else:
+            ctx.R.ok("JOIN-2", "the handler-chain walk ends only when no entry covers the position")
     # acceptance breaks out of the loop
     if not any(isinstance(s, ast.Break) for s in after):
         ctx.R.fail("SNAP-5", mod, loop, "a consistent snapshot must end the retry loop", construct="break after acceptance")
